@@ -61,7 +61,7 @@ _MODULE_NAMES = {"np", "numpy", "math", "operator", "pandas", "pd", "scipy", "sp
                  "expit", "logit", "isinstance", "tuple", "list", "sorted"}
 
 
-def record_fields(repo, mod, name):
+def record_fields(repo, mod, name, allow_methods=False):
     """ordered field names of a repository class that is a plain record: a typing.NamedTuple subclass or a @dataclass whose body
     declares annotated fields (no __init__/__new__/__post_init__ of its own); None otherwise"""
     cq = repo.chase(mod, name)
